@@ -804,7 +804,10 @@ func (u *Unit) execSlice(st *State, fr *Frame, in *ssa.Slice) {
 func (u *Unit) execMakeSlice(st *State, fr *Frame, in *ssa.MakeSlice) {
 	l := u.val(st, in.Len).Terms[0]
 	c := u.val(st, in.Cap).Terms[0]
-	u.oblige(st, "makeslice", "", fmt.Sprintf("(and (<= 0 %s) (<= %s %s))", l, l, c), in.Pos(), "make: 0 <= len <= cap", nil, "")
+	// existing slices hold at most 2^40 elements (typing assumption); a make() whose size is not
+	// bounded by something that exists (e.g. a number taken from a request) can exhaust memory or
+	// panic with "cap out of range"
+	u.oblige(st, "makeslice", "", fmt.Sprintf("(and (<= 0 %s) (<= %s %s) (<= %s 281474976710656))", l, l, c, c), in.Pos(), "make: 0 <= len <= cap <= 2^48", nil, "")
 	r := u.newRef(st, "mk")
 	et := in.Type().Underlying().(*types.Slice).Elem()
 	for _, lf := range u.eng.leavesOf(et) {
